@@ -41,8 +41,11 @@ pub struct FnDirective {
     pub refvars: Vec<String>,
     pub self_is_ref: bool,
     pub allow_macros: Vec<String>,
-    /// R16 (opt-in, `//@ try-into-as-try-from`): `e.try_into()` -> `core::convert::TryFrom::try_from(e)`
-    pub tryinto_as_tryfrom: bool,
+    /// R16 (opt-in, `//@ try-into-as <fn>`): `e.try_into()` -> `<fn>(e)`, where <fn> is a shim of the template whose (external) body is
+    /// `s.try_into()` itself and whose contract is the assumed specification of that core conversion
+    pub tryinto_as: Option<String>,
+    /// R16 for path calls (opt-in, `//@ call-as <callee path> <fn>`): `<callee path>(args)` -> `<fn>(args)`; same justification
+    pub call_as: Vec<(String, String)>,
 }
 
 #[derive(Clone, Debug)]
@@ -171,7 +174,14 @@ fn parse_fn_block(name_line: &str, lines: &[(bool, String)]) -> FnDirective {
             "refvars" => curfn!().refvars = rest.split_whitespace().map(|x| x.to_string()).collect(),
             "allow-macro" => curfn!().allow_macros = rest.split_whitespace().map(|x| x.to_string()).collect(),
             "external_body" => curfn!().external_body = true,
-            "try-into-as-try-from" => curfn!().tryinto_as_tryfrom = true,
+            "try-into-as" => curfn!().tryinto_as = Some(rest.to_string()),
+            "call-as" => {
+                let mut it = rest.split_whitespace();
+                match (it.next(), it.next()) {
+                    (Some(a), Some(b)) => curfn!().call_as.push((a.to_string(), b.to_string())),
+                    _ => die("call-as needs <callee path> <fn>"),
+                }
+            }
             "loop" => {
                 let mut it = rest.split_whitespace();
                 let n: usize = it.next().and_then(|x| x.parse().ok()).unwrap_or_else(|| die("loop needs ordinal"));
